@@ -81,7 +81,8 @@ first) a valid chain ending at `p` whose score is the cell of `p` -/
 theorem trace_spec {ms : List M} {k : Nat} (hk : 0 < k) (hs : ms.Pairwise lexLt) :
     ∀ p, p < ms.length → ∀ fuel, p + 2 ≤ fuel →
       ∃ tb, traceLoop (sweep ms k).dp fuel (p : Int) = some (p :: tb) ∧ (∀ i ∈ p :: tb, i < ms.length) ∧
-        RChain k ((p :: tb).map (mAt ms)) ∧ rscore k ((p :: tb).map (mAt ms)) = F ms k p := by
+        RChain k ((p :: tb).map (mAt ms)) ∧ rscore k ((p :: tb).map (mAt ms)) = F ms k p ∧
+        (p :: tb).Pairwise (· > ·) := by
   intro p
   induction p using Nat.strongRecOn with
   | _ p ih =>
@@ -95,13 +96,13 @@ theorem trace_spec {ms : List M} {k : Nat} (hk : 0 < k) (hs : ms.Pairwise lexLt)
     · rw [h2]
       obtain ⟨fuel, rfl⟩ : ∃ f, fuel = f + 1 := ⟨fuel - 1, by omega⟩
       rw [traceLoop_neg]
-      refine ⟨[], rfl, by simpa using hp, by simp [RChain], ?_⟩
+      refine ⟨[], rfl, by simpa using hp, by simp [RChain], ?_, by simp⟩
       simp only [List.map_cons, List.map_nil, rscore]; omega
     · rw [h2]
       have hrp : r < p := idx_lt_of_x_lt hs hr hp (link_x_lt hk hlink)
-      obtain ⟨tb, ht, hall, hch, hsc⟩ := ih r hrp hr fuel (by omega)
+      obtain ⟨tb, ht, hall, hch, hsc, hpw⟩ := ih r hrp hr fuel (by omega)
       rw [ht]
-      refine ⟨r :: tb, rfl, ?_, ?_, ?_⟩
+      refine ⟨r :: tb, rfl, ?_, ?_, ?_, ?_⟩
       · intro i hi
         rcases List.mem_cons.mp hi with rfl | hi
         · exact hp
@@ -110,25 +111,30 @@ theorem trace_spec {ms : List M} {k : Nat} (hk : 0 < k) (hs : ms.Pairwise lexLt)
         exact ⟨hlink, hch⟩
       · simp only [List.map_cons, rscore] at hsc ⊢
         rw [hsc]; omega
+      · refine List.pairwise_cons.mpr ⟨?_, hpw⟩
+        intro i hi
+        rcases List.mem_cons.mp hi with rfl | hi
+        · exact hrp
+        · have := (List.pairwise_cons.mp hpw).1 i hi; omega
 
 /-! ### the model is optimal -/
 
 theorem lcskpp_model_ok {ms : List M} {k : Nat} (hk : 0 < k) (hs : ms.Pairwise lexLt) :
     ∃ r, lcskpp ms k = .ok r ∧ r.score = max0 (dpScores ms k) ∧ validChain ms k r.path = true ∧
       score k (pathMatches ms r.path) = max0 (dpScores ms k) ∧
-      ∀ q, q < ms.length → (r.dp.getD q (0, 0)).1 = (dpScores ms k).getD q 0 := by
+      (∀ q, q < ms.length → (r.dp.getD q (0, 0)).1 = (dpScores ms k).getD q 0) ∧ r.path.Pairwise (· < ·) := by
   cases hms : ms with
   | nil =>
     refine ⟨{ path := [], score := 0, dp := [] }, by simp [lcskpp], by simp [dpScores, tableR, max0], by simp [validChain, pathMatches, chainB],
-      by simp [pathMatches, score, dpScores, tableR, max0], by intro q hq; simp at hq⟩
+      by simp [pathMatches, score, dpScores, tableR, max0], by intro q hq; simp at hq, by simp⟩
   | cons m0 rest =>
     rw [← hms]
     have hne : 0 < ms.length := by rw [hms]; simp
     have hsorted : sortedStrict ms = true := (sortedStrict_iff ms).mpr hs
     obtain ⟨⟨p, hp, hb2, hb1⟩, _⟩ := final_best hk hs hne
-    obtain ⟨tb, ht, hall, hch, hsc⟩ := trace_spec hk hs p hp (ms.length + 1) (by omega)
+    obtain ⟨tb, ht, hall, hch, hsc, hpw⟩ := trace_spec hk hs p hp (ms.length + 1) (by omega)
     have hopt : (sweep ms k).best.1 = max0 (dpScores ms k) := best_eq_max0 hk hs hne
-    refine ⟨{ path := (p :: tb).reverse, score := (sweep ms k).best.1, dp := (sweep ms k).dp }, ?_, hopt, ?_, ?_, ?_⟩
+    refine ⟨{ path := (p :: tb).reverse, score := (sweep ms k).best.1, dp := (sweep ms k).dp }, ?_, hopt, ?_, ?_, ?_, ?_⟩
     · unfold lcskpp
       have hemp : ms.isEmpty = false := by rw [hms]; rfl
       simp only [hemp, hsorted, Bool.false_eq_true, if_false, Bool.not_true, hb2, ht]
@@ -148,5 +154,7 @@ theorem lcskpp_model_ok {ms : List M} {k : Nat} (hk : 0 < k) (hs : ms.Pairwise l
       rw [hpm, ← rscore_eq, hsc, ← hb1, hopt]
     · intro q hq
       exact final_cell hk hs hq
+    · show ((p :: tb).reverse).Pairwise (· < ·)
+      rw [List.pairwise_reverse]; exact hpw
 
 end RbV.Lemmas.Lcskpp
